@@ -342,6 +342,11 @@ func (l *NDNLPLinkService) handleIncomingFrame(frame []byte) {
 			baseSequence := *LP.Sequence - fragIndex
 
 			core.LogTrace(l, "Received fragment ", fragIndex, " of ", fragCount, " for ", baseSequence)
+			// FragIndex and FragCount come from the peer: validate before they size or index anything
+			if fragCount == 0 || fragCount > maxFragments || fragIndex >= fragCount {
+				core.LogWarn(l, "Received NDNLPv2 frame with invalid FragIndex/FragCount - DROP")
+				return
+			}
 			if fragIndex == 0 && fragCount == 1 {
 				// Bypass reassembly since only one fragment
 			} else {
@@ -406,16 +411,24 @@ func (l *NDNLPLinkService) handleIncomingFrame(frame []byte) {
 	}
 }
 
+// maxFragments is the largest FragCount accepted on receive (same default as NFD's
+// LpReassembler): a packet of at most MaxNDNPacketSize is never split into more fragments.
+const maxFragments = 400
+
 func (l *NDNLPLinkService) reassemblePacket(
 	frame *spec.LpPacket,
 	baseSequence uint64,
 	fragIndex uint64,
 	fragCount uint64,
 ) enc.Wire {
-	_, hasSequence := l.partialMessageStore[baseSequence]
+	partial, hasSequence := l.partialMessageStore[baseSequence]
 	if !hasSequence {
 		// Create map entry
 		l.partialMessageStore[baseSequence] = make([][]byte, fragCount)
+	} else if uint64(len(partial)) != fragCount {
+		// FragCount disagrees with the earlier fragments of this packet
+		core.LogWarn(l, "Received fragment whose FragCount differs from earlier fragments - DROP")
+		return nil
 	}
 
 	// Insert into PartialMessageStore
